@@ -134,6 +134,24 @@ theorem c16_selects_offer_stop :
       (fun r => hasStopCases r.2.2.2 || r.2.2.2.contains ("default", false))) = true := by
   decide
 
+
+/-! ### C10: the timeout is driven by one ticker per discipline -/
+
+def loopSelects (pkg : String) : List (List (String × Bool)) :=
+  (selects.filter (fun r => r.1 == pkg && r.2.1 == "Discipline" && r.2.2.1 == "loop")).map (·.2.2.2)
+
+/-- the timed loop of every batching discipline selects on ONE ticker (`<-ticker.C`, a case
+    that does not return) that is created outside the loop — it is stopped by a deferred call
+    of `loop` — so input arriving more often than the ticker period cannot keep the timeout
+    test from running (a fresh `time.After` per iteration could) -/
+theorem c10_one_ticker :
+    (loopSelects "v2/join").all (fun cs => cs.contains ("<-ticker.C", false)) = true ∧ (loopSelects "v2/join").length = 1 ∧
+    (loopSelects "v2/join/unite").all (fun cs => cs.contains ("<-ticker.C", false)) = true ∧ (loopSelects "v2/join/unite").length = 1 ∧
+    (loopSelects "join").all (fun cs => cs.contains ("<-ticker.C", false)) = true ∧ (loopSelects "join").length = 1 ∧
+    (defersOf "v2/join" "Discipline" "loop").contains "ticker.Stop()" = true ∧
+    (defersOf "v2/join/unite" "Discipline" "loop").contains "ticker.Stop()" = true ∧
+    (defersOf "join" "Discipline" "loop").contains "ticker.Stop()" = true := by decide
+
 /-! ### C20: confinement of the scheduler state -/
 
 abbrev MethodRow := String × Bool × List String × List String × List String
